@@ -61,7 +61,7 @@ class Gen:
         c = self.r.below(14 if depth > 0 else 7)
         if c <= 2:
             self.count("assign")
-            self.tag("SA"); self.w(self.name()); self.w(self.r.choice(ASSIGN)); self.ex()
+            self.tag("SA"); self.tag("A"); self.w(self.name()); self.w(self.r.choice(ASSIGN)); self.ex()
         elif c == 3:
             self.count("expr-stmt")
             self.tag("SE"); self.ex_stmt()
